@@ -49,9 +49,9 @@ theorem C06_scalar_no_panic (O : Oracle) (k : ScalarKind) (t : GoTok) :
   decodeScalar_np O k t
 
 /-- the oneof post-checks (`foundKeys[0]`, repaired by da8a625) never panic -/
-theorem C06_oneof_post_no_panic (ops : List PropDef) (found : List Bytes) (ct : Option Bytes) :
-    ∀ w, oneofPost ops found ct ≠ .panic w :=
-  oneofPost_np ops found ct
+theorem C06_oneof_post_no_panic (ops : List PropDef) (found : List Bytes) (ct : Option Bytes)
+    (m : Fields) : ∀ w, oneofPost ops found ct m ≠ .panic w :=
+  oneofPost_np ops found ct m
 
 /-- environment with an array of arrays (not expressible in proto) -/
 def badProp : PropDef :=
@@ -64,7 +64,7 @@ theorem C06_itemsOk_needed :
     decRootTree { env := badEnv, O := default } "r"
       (.obj (.cons [0x61] [] (.arr (.nil .closed)) (.nil .closed))) =
       .panic "invalid schema for leaf field" := by
-  simp [decRootTree, badEnv, badProp, Env.find, decObjMembers, findProp, decProp, createField, itemCheck,
+  simp [decRootTree, badEnv, badProp, Env.find, decObjMembers, findProp, decProp, createField, groupBusy, itemCheck,
     Outcome.bind, finishObject]
 
 /-! ## Non-vacuity -/
